@@ -84,6 +84,15 @@ def run_item(item):
             k = next((i for i, l in enumerate(case['lines']) if l.startswith('diff ')), len(case['lines']))
             stat = corpus.diffstat_lines(rng, [s_.new_path for s_ in case['diff'].sections])
             case['lines'] = case['lines'][:k] + stat + case['lines'][k:]
+    headerless = False
+    if case['kind'] == 'diff' and rng.random() < 0.1:
+        # a patch fragment: hunks without any diff / --- / +++ line before them (no file is named)
+        k = next((i for i, l in enumerate(case['lines']) if l.startswith('@@')), None)
+        if k and sum(1 for l in case['lines'][:k] if l.startswith('diff ')) == 1 and \
+                not any(l.startswith(('--- ', '+++ ')) for l in case['lines'][k:] if not l.startswith(('--- a/', '+++ b/', '--- /dev', '+++ /dev'))):
+            # (the first section is the one with that hunk; a removed line "-- x" would read as a file header in a fragment)
+            case['lines'] = case['lines'][k:]
+            headerless = True
     file_fmt = rng.choice(FILE_FMTS)
     commit_fmt = rng.choice(COMMIT_FMTS)
     repo_cwd = None
@@ -118,7 +127,7 @@ def run_item(item):
         c['executions'] = 2
         return c
     counters = {'links': 0, 'file_links': 0, 'line_links': 0, 'commit_links': 0, 'pairs': 1}
-    sets = {'kinds': [case['kind']], 'views': [case['view']], 'option_classes': case['meta']['classes'] + (['file-transformation'] if xf else []) + (['relative-paths+GIT_PREFIX'] if prefix else []) + (['remote-derived-commit-links'] if repo_cwd else []), 'mode': [mode],
+    sets = {'kinds': [case['kind']], 'views': [case['view']], 'option_classes': case['meta']['classes'] + (['file-transformation'] if xf else []) + (['relative-paths+GIT_PREFIX'] if prefix else []) + (['remote-derived-commit-links'] if repo_cwd else []) + (['headerless-hunks'] if headerless else []), 'mode': [mode],
             'file_fmt': [file_fmt]}
 
     def bad(key, what, exp=None, obs=None):
@@ -144,7 +153,8 @@ def run_item(item):
     # targets
     if case['kind'] in ('diff', 'log'):
         d = case['diff']
-        sec = -1
+        sec = 0 if headerless else -1
+        skip_first = headerless
         for rw in rws:
             info = rows.classify(rw)
             if info.kind == 'file':
@@ -161,8 +171,8 @@ def run_item(item):
                         return bad('commit-target', 'commit link target does not match the wrapped hash', exp, uri)
                     counters['commit_links'] += 1
                     continue
-                if sec < 0 or sec >= len(d.sections):
-                    continue
+                if sec < 0 or sec >= len(d.sections) or (skip_first and sec == 0):
+                    continue      # (links of a hunk for which no file was named are not judged: there is no file to point at)
                 s = d.sections[sec]
                 def disp(pth):
                     return os.path.relpath(pth, prefix.rstrip('/')) if prefix else pth
